@@ -128,6 +128,21 @@ impl Inst<'_> {
             J::obj().set("instantiation", self.name.as_str()).set("call", call),
         );
     }
+    /// two results of the same shape must also have the same memory layout: the fast path is
+    /// unobservable except in speed
+    pub fn same_layout(&mut self, what: &str, shape: &[usize], a: &[isize], b: &[isize]) {
+        self.ev.add("layout_comparisons", 1);
+        // strides of axes of length <= 1 carry no information
+        let differs = shape.iter().zip(a.iter().zip(b)).any(|(n, (x, y))| *n > 1 && x != y);
+        if a.len() != b.len() || differs {
+            self.ev.violation(
+                "C19:fast-path-differs-from-general-path",
+                &format!("{} {what}: result strides {:?} vs {:?} for shape {:?}", self.name, a, b, shape),
+                self.id,
+                J::obj().set("instantiation", self.name.as_str()).set("comparison", what),
+            );
+        }
+    }
     pub fn compare(&mut self, what: &str, a: &[u64], b: &[u64]) {
         self.ev.add("path_comparisons", 1);
         if a != b {
@@ -139,6 +154,14 @@ impl Inst<'_> {
             );
         }
     }
+}
+
+/// the same logical array stored in column-major order
+pub fn to_f_order<T: Clone + Default, D: ndarray::Dimension>(a: &ndarray::Array<T, D>) -> ndarray::Array<T, D> {
+    use ndarray::ShapeBuilder;
+    let mut f = ndarray::Array::<T, D>::default(a.raw_dim().f());
+    f.assign(a);
+    f
 }
 
 pub fn data_shape(rank: usize, two_d: bool) -> Vec<usize> {
@@ -169,6 +192,8 @@ macro_rules! c19_one1 {
         )
         .unwrap();
         let data = data_d.into_dimensionality::<$D>().unwrap();
+        // every second instantiation stores its data in column-major (F) order
+        let data = if ($id as u64) % 2 == 1 { $crate::c19::to_f_order(&data) } else { data };
         let x: Array1<$T> = Array1::from(vec![<$T as Bits>::from_i(0), <$T as Bits>::from_i(1), <$T as Bits>::from_i(2)]);
         let q1: Array1<$T> = Array1::from(vec![<$T as Bits>::query(0), <$T as Bits>::query(1)]);
         let mut inst = Inst {
@@ -255,6 +280,7 @@ macro_rules! c19_one1 {
                             }
                         }
                         inst.compare("Ix1 vs IxDyn(rank 1)", &fb, &bits(&mut gd.iter().copied()));
+                        inst.same_layout("Ix1 vs IxDyn(rank 1)", f.shape(), f.strides(), gd.strides());
                         inst.compare("Ix1 vs Ix2 (n,1)", &fb, &bits(&mut g2.iter().copied()));
                         inst.compare("Ix1 vs Ix3 (n,1,1)", &fb, &bits(&mut g3.iter().copied()));
                         let sb = bits(&mut s.iter().copied());
@@ -328,6 +354,8 @@ macro_rules! c19_one2 {
         )
         .unwrap();
         let data = data_d.into_dimensionality::<$D>().unwrap();
+        // every second instantiation stores its data in column-major (F) order
+        let data = if ($id as u64) % 2 == 1 { $crate::c19::to_f_order(&data) } else { data };
         let x: Array1<$T> = Array1::from(vec![<$T as Bits>::from_i(0), <$T as Bits>::from_i(1), <$T as Bits>::from_i(2)]);
         let y: Array1<$T> = x.clone();
         let qx: Array1<$T> = Array1::from(vec![<$T as Bits>::query(0), <$T as Bits>::query(1)]);
@@ -426,6 +454,7 @@ macro_rules! c19_one2 {
                             Err(p) => inst.failed("interp_array(Ix1, reversed views)", p),
                         }
                         inst.compare("Ix1 vs IxDyn(rank 1)", &fb, &bits(&mut gd.iter().copied()));
+                        inst.same_layout("Ix1 vs IxDyn(rank 1)", f.shape(), f.strides(), gd.strides());
                         inst.compare("Ix1 vs Ix2 (n,1)", &fb, &bits(&mut g2.iter().copied()));
                         inst.compare("Ix1 vs Ix3 (1,n,1)", &fb, &bits(&mut g3.iter().copied()));
                         let sb = bits(&mut s.iter().copied());
@@ -469,6 +498,8 @@ macro_rules! c19_cross1 {
         )
         .unwrap();
         let data = data_d.into_dimensionality::<$D>().unwrap();
+        // every second instantiation stores its data in column-major (F) order
+        let data = if ($id as u64) % 2 == 1 { $crate::c19::to_f_order(&data) } else { data };
         let x: Array1<$T> = Array1::from(vec![<$T as Bits>::from_i(0), <$T as Bits>::from_i(1), <$T as Bits>::from_i(2)]);
         let q1: Array1<$T> = Array1::from(vec![<$T as Bits>::query(1), <$T as Bits>::query(0), <$T as Bits>::query(1)]);
         let mut inst = Inst {
@@ -541,6 +572,8 @@ macro_rules! c19_cross2 {
         )
         .unwrap();
         let data = data_d.into_dimensionality::<$D>().unwrap();
+        // every second instantiation stores its data in column-major (F) order
+        let data = if ($id as u64) % 2 == 1 { $crate::c19::to_f_order(&data) } else { data };
         let qx: Array1<$T> = Array1::from(vec![<$T as Bits>::query(0), <$T as Bits>::query(1), <$T as Bits>::query(0)]);
         let qy: Array1<$T> = Array1::from(vec![<$T as Bits>::query(1), <$T as Bits>::query(1), <$T as Bits>::query(0)]);
         let mut inst = Inst {
